@@ -45,6 +45,7 @@ type qObs struct {
 	Counter int64       `json:"counter"`
 	OK      bool        `json:"ok"`
 	Armed   bool        `json:"armed"`
+	Waiting []string    `json:"waiting,omitempty"` // cached queued Jobs with a start policy whose startAfter is still ahead, as the pass saw them
 	Actions []simAction `json:"actions"`
 	Jobs    [][]int64   `json:"jobs"` // id, started, terminal, admErr
 	Now     int64       `json:"now"`
@@ -252,6 +253,13 @@ func (im *qImpl) apply(o qOp) qObs {
 		im.api.faults = append(im.api.faults, map[string]string{"start": "update-status", "reject": "update-job"}[o.Fault])
 	case "sync":
 		before := len(im.jcq.Log)
+		for _, x := range im.sc.informers.Jobs.sortedList() {
+			rj := x.(*execution.Job)
+			if ref := metav1.GetControllerOf(rj); ref != nil && jobutil.IsQueued(rj) && rj.Spec.StartPolicy != nil &&
+				rj.Spec.StartPolicy.StartAfter != nil && rj.Spec.StartPolicy.StartAfter.Unix() > im.api.now() {
+				obs.Waiting = append(obs.Waiting, rj.Name)
+			}
+		}
 		err := im.per.SyncOne(context.Background(), "ns", jcName, 0)
 		obs.OK = err == nil
 		for _, l := range im.jcq.Log[before:] {
@@ -261,6 +269,12 @@ func (im *qImpl) apply(o qOp) qObs {
 		}
 	case "syncindep":
 		before := len(im.iq.Log)
+		if x, ok, _ := im.sc.informers.Jobs.GetIndexer().GetByKey("ns/" + jobNameOf(o.ID)); ok {
+			rj := x.(*execution.Job)
+			if jobutil.IsQueued(rj) && rj.Spec.StartPolicy != nil && rj.Spec.StartPolicy.StartAfter != nil && rj.Spec.StartPolicy.StartAfter.Unix() > im.api.now() {
+				obs.Waiting = append(obs.Waiting, rj.Name)
+			}
+		}
 		err := im.indep.SyncOne(context.Background(), "ns", jobNameOf(o.ID), 0)
 		obs.OK = err == nil
 		for _, l := range im.iq.Log[before:] {
@@ -564,6 +578,27 @@ func queueMonitor(res *Result, ops []qOp, obs []qObs, js interface{}) {
 			}
 		}
 		prev = ob.Jobs
+	}
+	// a pass in which a start or refuse write failed must return an error: only then is the key
+	// re-added to the work queue; a swallowed error means the Job is never started
+	for k := range ops {
+		if (ops[k].Kind == "sync" || ops[k].Kind == "syncindep") && obs[k].OK {
+			for _, a := range obs[k].Actions {
+				if a.Outcome == 2 || a.Outcome == 3 {
+					hit("C07", "C07/failed-start-not-retried", fmt.Sprintf("op %d: %s %s failed (outcome %d) but the pass reported success: the work queue forgets the key, nothing starts the Job later", k, a.Verb, a.Name, a.Outcome))
+					hit("C20", "C20/failed-call-not-retried", fmt.Sprintf("op %d: %s %s failed (outcome %d) but the pass reported success", k, a.Verb, a.Name, a.Outcome))
+					hit("C06", "C06/failed-write-not-retried", fmt.Sprintf("op %d: %s %s failed (outcome %d) but the pass reported success", k, a.Verb, a.Name, a.Outcome))
+					break
+				}
+			}
+		}
+	}
+	// a pass that ends without error while a Job it saw is still waiting for its startAfter must
+	// arm a deferred re-sync: nothing else wakes the controller when the time comes
+	for k := range ops {
+		if (ops[k].Kind == "sync" || ops[k].Kind == "syncindep") && obs[k].OK && len(obs[k].Waiting) > 0 && !obs[k].Armed {
+			hit("C07", "C07/no-timer-for-start-after", fmt.Sprintf("op %d: %v wait for their startAfter (clock %d); the pass armed no re-sync", k, obs[k].Waiting, obs[k].Now))
+		}
 	}
 	// quiescence: judged only when the last pass of each reconciler succeeded
 	// (a pass that failed on an injected fault is retried by the work queue: not quiescent yet)
